@@ -66,7 +66,10 @@ def _env_for(fn):
     return env, names
 
 
-def _leaves(e, env, conds):
+_MS = {}
+
+
+def _leaves(e, env, conds, depth=0):
     """-> [(conds, kind, payload)] where kind in {'struct','operand','scalar'}"""
     e = A.strip(e)
     k = e.get("k")
@@ -83,24 +86,116 @@ def _leaves(e, env, conds):
                     env2.vars[nm] = S.to_sym(init, env2)
             else:
                 tail = A.stmt_expr(s)
-        return _leaves(tail, env2, conds)
+        return _leaves(tail, env2, conds, depth)
     if k == "If":
         c = A.ftxt(A.strip(e["cond"]))
-        return _leaves(e["then"], env, conds + [c]) + _leaves(e["else"], env, conds + ["!" + c])
+        return _leaves(e["then"], env, conds + [c], depth) + _leaves(e["else"], env, conds + ["!" + c], depth)
     if k == "Struct":
         f = {x["name"]: S.to_sym(x["e"], env) for x in e["fields"]}
         return [(conds, "struct", f)]
     if k == "Unary" and e["op"] == "*":
-        return _leaves(e["e"], env, conds)
+        return _leaves(e["e"], env, conds, depth)
     if k == "Path" and len(e["segs"]) == 1 and isinstance(env.vars.get(e["segs"][0]), dict):
         return [(conds, "operand", e["segs"][0])]
     if k == "MethodCall" and e["method"] == "into":
         return [(conds, "scalar", e["recv"])]
+    # a Grad built from other Grad operations (`-self`, `self * rhs`, `self.recip()`): read through the
+    # sibling implementation, with its parameters standing for these operands
+    ms = _MS.get("ms")
+    if ms and depth < 3:
+        key = args = None
+        if k == "Unary" and e["op"] == "-":
+            key, args = "op:Neg", [e["e"]]
+        elif k == "Binary" and e["op"] in ("+", "-", "*", "/"):
+            key, args = "op:%s<Grad>" % {"+": "Add", "-": "Sub", "*": "Mul", "/": "Div"}[e["op"]], [e["left"], e["right"]]
+        elif k == "MethodCall" and e["method"] in ms:
+            key, args = e["method"], [e["recv"]] + list(e["args"])
+        if key in ms:
+            vals = []
+            for a in args:
+                lv = _leaves(a, env, [], depth + 1)
+                if len(lv) != 1 or lv[0][1] == "scalar":
+                    raise S.Untranslatable("operand `%s`" % A.unparse(a)[:40])
+                vals.append(env.vars[lv[0][2]] if lv[0][1] == "operand" else lv[0][2])
+            fn2 = ms[key]
+            env2, names2 = _env_for(fn2)
+            if len(names2) != len(vals) or any(n[1] is None for n in names2):
+                raise S.Untranslatable("call `%s`" % A.unparse(e)[:40])
+            for (nm, _s), val in zip(names2, vals):
+                env2.vars[nm] = dict({f_: val[f_] for f_ in ("v", "dx", "dy", "dz")}, __prefix__=nm)
+            out = []
+            for c2, kind2, pay in _leaves(fn2["body"], env2, [], depth + 1):
+                if kind2 == "scalar":
+                    raise S.Untranslatable("call `%s`" % A.unparse(e)[:40])
+                f_ = env2.vars[pay] if kind2 == "operand" else pay
+                out.append((conds + list(c2), "struct", {x: f_[x] for x in ("v", "dx", "dy", "dz")}))
+            return out
     raise S.Untranslatable("result `%s`" % A.unparse(e)[:40])
+
+
+def _deriv_leaves_ok(fn):
+    """the leaf cases of Context::deriv, whatever the spelling of the choice: under `Op::Input(u)` the value
+    cached for the node and pushed on the stack is constant(1.0) exactly when u is the variable of
+    differentiation and the zero constant otherwise; under `Op::Const(..)` it is the zero constant"""
+    params = [A.binding_name(i["pat"]) for i in fn["sig"]["inputs"] if "pat" in i]
+    if len(params) != 2:
+        return False
+    var = params[1]
+    view = A.value_view(fn["body"])
+    zero_names = {A.binding_name(l["pat"]) for l in A.find(fn["body"], "Let") if l.get("init") is not None and str(A.ftxt(A.strip(l["init"]))) == "self.constant(0.0)"}
+
+    def is_zero(t):
+        return t in zero_names or t == "self.constant(0.0)"
+
+    ok = {"Input": False, "Const": False}
+    for m in A.find(view, "Match"):
+        for arm in m["arms"]:
+            if arm["pat"].get("k") == "POr":
+                continue
+            segs, subs = A.pat_variant(arm["pat"])
+            if not segs or segs[-2:-1] != ["Op"] or segs[-1] not in ok:
+                continue
+            ins = [c for c in A.find(arm["body"], "MethodCall") if c["method"] == "insert" and A.ident(A.strip(c["recv"])) == "seen" and len(c["args"]) == 2]
+            psh = [c for c in A.find(arm["body"], "MethodCall") if c["method"] == "push" and A.ident(A.strip(c["recv"])) == "stack" and len(c["args"]) == 1]
+            if len(ins) != 1 or len(psh) != 1:
+                continue
+            if str(A.ftxt(ins[0]["args"][1])) != str(A.ftxt(psh[0]["args"][0])):
+                return False
+            val = A.strip(ins[0]["args"][1])
+            for l in A.find(arm["body"], "Let"):
+                if A.ident(val) and A.binding_name(l["pat"]) == A.ident(val) and l.get("init") is not None:
+                    val = l["init"]
+                    break
+            cases = A.value_cases(val)
+            if segs[-1] == "Const":
+                ok["Const"] = all(is_zero(str(A.ftxt(leaf))) and True for leaf, _c in cases)
+                continue
+            u = A.binding_name(subs[0]) if subs else None
+            good = bool(u) and len(cases) == 2
+            for leaf, conds in cases:
+                if len(conds) != 1:
+                    good = False
+                    break
+                c = A.norm_cond(conds[0])
+                neg = c.startswith("!")
+                c = c.lstrip("!")
+                if c in ("%s==%s" % (var, u), "%s==%s" % (u, var)):
+                    same = not neg
+                elif c in ("%s!=%s" % (var, u), "%s!=%s" % (u, var)):
+                    same = neg
+                else:
+                    good = False
+                    break
+                t = str(A.ftxt(leaf))
+                if not ((same and t == "self.constant(1.0)") or (not same and is_zero(t))):
+                    good = False
+            ok["Input"] = good
+    return ok["Input"] and ok["Const"]
 
 
 def r1_chain_rule(rule, root=None):
     ms = grad_methods(root)
+    _MS["ms"] = ms
     E = sp.Symbol("E", real=True)
     S.BINARY_METHODS["rem_euclid"] = lambda a, b: a - b * E
     S.BINARY_METHODS["div_euclid"] = lambda a, b: E
@@ -198,7 +293,11 @@ def r3_piecewise(rule, root=None):
         fn = ms.get(name)
         st = list(A.find(fn["body"], "Struct")) if fn else []
         f = {x["name"]: A.ftxt(x["e"]) for x in st[0]["fields"]} if st else {}
-        if f == {"v": "self.v.%s()" % name, "dx": "0.0", "dy": "0.0", "dz": "0.0"}:
+        # `self.v.floor().into()` is the same constant through From<f32> (checked below to have zero derivatives)
+        tail = A.unblock(fn["body"]) if fn else {}
+        via_from = (not st and tail.get("k") == "MethodCall" and tail["method"] == "into" and not tail["args"]
+                    and str(A.ftxt(A.strip(tail["recv"]))) == "self.v.%s()" % name)
+        if via_from or f == {"v": "self.v.%s()" % name, "dx": "0.0", "dy": "0.0", "dz": "0.0"}:
             rule.ok("Grad::%s has zero derivative" % name)
         else:
             rule.bad("%s|zero" % name, "Grad::%s must be { v: self.v.%s(), dx: 0, dy: 0, dz: 0 }, found %s" % (name, name, f), A.where(fn) if fn else "")
@@ -407,7 +506,7 @@ def r4_symbolic_deriv(rule, root=None):
     elif not memo_bad:
         rule.ok("deriv's cache is keyed by the node being differentiated (%d uses)" % n_ins)
     t = A.ftxt(fn["body"])
-    if "letz=if(v==u){self.constant(1.0)}else{zero};" in t and "Op::Const(_c)=>{seen.insert(n,zero);stack.push(zero);}" in t:
+    if _deriv_leaves_ok(fn):
         rule.ok("deriv of the variable itself is 1, of other inputs and constants 0")
     else:
         rule.bad("leaves", "d/dv must be 1 for the variable v, 0 for other inputs and constants", A.where(fn))
